@@ -421,6 +421,45 @@ Theorem c04_repeat_over_limit_is_error : forall t count,
 Proof. exact repeat_body_over_limit. Qed.
 Print Assumptions c04_repeat_over_limit_is_error.
 
+(* ---- size limits (664d88e, 1fba51e).  A text that &, replace or join returns is at most 1000000 bytes (UTF-8 length:
+   `(x) => x & x` applied 36 times asked for 64 GB); concat returns at most 1000000 items; the digits of the canonical
+   factors of a product add up to at most 100000 (`(x) => x * x` applied 40 times doubled the digits each time: the
+   exponent limit did not see it); what foreach collects costs at most 1000000 in total; a value that is converted
+   to text (ToXText) is nil or costs at most 1000000, where the cost (value_cost: types.spendSize) counts every
+   value, its nesting depth, the bytes of texts and property names and the digits of numbers — a value can hold the
+   same sub-value many times over, so neither its memory nor the expression that built it bound what is written ---- *)
+Theorem c04_concatenation_result_bounded : forall frac_pow x y, text_within (eval_binop frac_pow OConcat x y).
+Proof. exact concat_op_within. Qed.
+Print Assumptions c04_concatenation_result_bounded.
+
+Theorem c04_replace_result_bounded : forall wclass regex ext args, text_within (call_function wclass regex ext FReplace args).
+Proof. exact replace_result_within. Qed.
+Print Assumptions c04_replace_result_bounded.
+
+Theorem c04_join_result_bounded : forall wclass regex ext args, text_within (call_function wclass regex ext FJoin args).
+Proof. exact join_result_within. Qed.
+Print Assumptions c04_join_result_bounded.
+
+Theorem c04_concat_result_bounded : forall x y items,
+  concat_body x y = Ret (VArray items) -> (zlen items <= max_render_size)%Z.
+Proof. exact concat_body_within. Qed.
+Print Assumptions c04_concat_result_bounded.
+
+Theorem c04_multiply_digits_bounded : forall x y p, mul_body x y = Ret (VNum p) ->
+  (num_digits (dec_canonical x) + num_digits (dec_canonical y) <= max_number_exponent)%Z.
+Proof. exact mul_body_digits. Qed.
+Print Assumptions c04_multiply_digits_bounded.
+
+Theorem c04_foreach_result_bounded : forall wclass regex ext args out,
+  call_function wclass regex ext FForEach args = Ret (VArray out) -> (items_cost out <= max_render_size)%Z.
+Proof. exact foreach_result_within. Qed.
+Print Assumptions c04_foreach_result_bounded.
+
+Theorem c04_converted_value_within_size_budget : forall v t,
+  to_text v = Ok t -> v = VNil \/ (value_cost false 0 v <= max_render_size)%Z.
+Proof. exact to_text_within_budget. Qed.
+Print Assumptions c04_converted_value_within_size_budget.
+
 (* ---- work bounded by argument size + result size.  What is counted: the model's own loop for repeat (repeat_loop
    returns the number of cells it wrote: an instrumented execution, not a formula), and DECLARED costs for the
    big-integer primitives, which are atomic in Gallina: Decimal.rescale = digit cells of the coefficient + length
@@ -475,8 +514,9 @@ Proof. exact base_arity_checks_as_model. Qed.
 Print Assumptions c04_base_arity_checks_as_model.
 
 Theorem c04_operator_guards_in_source :
-  max_number_exponent_src = max_number_exponent /\ forallb snd operator_guards = true
-  /\ List.length operator_guards = 9%nat.
+  max_number_exponent_src = max_number_exponent /\ max_text_length_src = max_text_length
+  /\ max_render_size_src = max_render_size /\ forallb snd operator_guards = true
+  /\ List.length operator_guards = 11%nat.
 Proof. exact operator_guards_in_source. Qed.
 Print Assumptions c04_operator_guards_in_source.
 
